@@ -152,3 +152,254 @@ pub proof fn lemma_int_vars_final2(iv: Seq<String>, r: asp::Rule)
         assert(is_int_var(iv, n) == (just_top(r, n) || just_cmps(r.body.formulas@, r.body.formulas@.len() as int, n)));
     }
 }
+
+// ---- correspondence of assignments -------------------------------------------------------------------------------------------
+/// the key under which the natural translation refers to the program variable named n
+pub open spec fn nkey(iv: Seq<String>, n: Seq<char>) -> VKey { if is_int_var(iv, n) { (n, Sort::Integer) } else { (n, Sort::General) } }
+
+/// g (values of the program variables) and s (assignment of the natural formula) agree on the program variables in `rel`; integer variables hold integers
+pub open spec fn corr(g: Asg, s: Asg, iv: Seq<String>, rel: spec_fn(VKey) -> bool) -> bool {
+    forall|k: VKey| rel(k) ==> #[trigger] g[k] == s[nkey(iv, k.0)] && (is_int_var(iv, k.0) ==> g[k] is Int)
+}
+
+/// every variable of an argument built with an operation is an integer variable (true for the integer variables of the rule)
+pub open spec fn arith_closed(t: asp::Term, iv: Seq<String>) -> bool { is_op(t) ==> forall|k: VKey| #[trigger] asp_in_term(t, k) ==> is_int_var(iv, k.0) }
+
+pub proof fn lemma_op_vals_int(t: asp::Term, g: Asg, v: Val)
+    requires is_op(t), in_vals(t, g, v),
+    ensures v is Int,
+{
+}
+
+pub proof fn lemma_in_int_p2f(t: asp::Term, it: IntegerTerm, k: VKey)
+    requires spec_p2f_int(t) == Some(it), in_int(it, k),
+    ensures k.1 == Sort::Integer && asp_in_term(t, (k.0, Sort::General)),
+    decreases t,
+{
+    match t {
+        asp::Term::Variable(v) => {}
+        asp::Term::PrecomputedTerm(p) => {}
+        asp::Term::UnaryOperation { op, arg } => { lemma_in_int_p2f(*arg, spec_p2f_int(*arg)->Some_0, k); }
+        asp::Term::BinaryOperation { op, lhs, rhs } => {
+            let a = spec_p2f_int(*lhs)->Some_0;
+            let b = spec_p2f_int(*rhs)->Some_0;
+            if in_int(a, k) { lemma_in_int_p2f(*lhs, a, k); } else { lemma_in_int_p2f(*rhs, b, k); }
+        }
+    }
+}
+
+/// C08, term level: a term the natural translation keeps has exactly one value — the value of its translation
+pub proof fn lemma_p2f_value(t: asp::Term, iv: Seq<String>, gt: GeneralTerm, fc: spec_fn(Seq<char>, Sort) -> Val, g: Asg, s: Asg, v: Val)
+    requires spec_p2f(t, iv) == Some(gt), arith_closed(t, iv), corr(g, s, iv, |k: VKey| asp_in_term(t, k)),
+    ensures in_vals(t, g, v) == (v == eval_gen(gt, fc, s)),
+{
+    let rel = |k: VKey| asp_in_term(t, k);
+    match t {
+        asp::Term::Variable(x) => {
+            let k = asp_var_key(x);
+            assert(rel(k));
+            assert(g[k] == s[nkey(iv, k.0)]);
+        }
+        asp::Term::PrecomputedTerm(p) => {}
+        _ => {
+            let it = spec_p2f_int(t)->Some_0;
+            assert forall|k: VKey| #[trigger] asp_in_term(t, k) implies s[(k.0, Sort::Integer)] == g[k] && g[k] is Int by {
+                assert(rel(k));
+                assert(is_int_var(iv, k.0));
+            }
+            assert(int_view_on(t, s, g));
+            assert(ints_ok(t, g));
+            if in_vals(t, g, v) { lemma_op_vals_int(t, g, v); }
+            if v is Int { lemma_p2f_int_value(t, it, fc, g, s, v->Int_0); }
+        }
+    }
+}
+
+pub proof fn lemma_p2f_fv(t: asp::Term, iv: Seq<String>, gt: GeneralTerm, k: VKey)
+    requires spec_p2f(t, iv) == Some(gt), arith_closed(t, iv), in_gen(gt, k),
+    ensures asp_in_term(t, (k.0, Sort::General)) && k == nkey(iv, k.0),
+{
+    match t {
+        asp::Term::Variable(x) => {}
+        asp::Term::PrecomputedTerm(p) => {}
+        _ => {
+            let it = spec_p2f_int(t)->Some_0;
+            lemma_in_int_p2f(t, it, k);
+            assert(is_int_var(iv, k.0));
+        }
+    }
+}
+
+/// tuples of kept terms: exactly one tuple of values
+pub open spec fn p2f_all(terms: Seq<asp::Term>, iv: Seq<String>, gts: Seq<GeneralTerm>) -> bool {
+    gts.len() == terms.len() && forall|i: int| 0 <= i < terms.len() ==> #[trigger] spec_p2f(terms[i], iv) == Some(gts[i]) && arith_closed(terms[i], iv)
+}
+
+pub proof fn lemma_p2f_tuple(terms: Seq<asp::Term>, iv: Seq<String>, gts: Seq<GeneralTerm>, fc: spec_fn(Seq<char>, Sort) -> Val, g: Asg, s: Asg, vs: Seq<Val>)
+    requires p2f_all(terms, iv, gts), corr(g, s, iv, |k: VKey| terms_in(terms, k)),
+    ensures tuple_vals(terms, g, vs) == (vs =~= eval_terms(gts, fc, s)),
+{
+    let ev = eval_terms(gts, fc, s);
+    assert forall|i: int, v: Val| 0 <= i < terms.len() implies #[trigger] in_vals(terms[i], g, v) == (v == ev[i]) by {
+        assert(spec_p2f(terms[i], iv) == Some(gts[i]));
+        assert(corr(g, s, iv, |k: VKey| asp_in_term(terms[i], k))) by {
+            assert forall|k: VKey| #[trigger] asp_in_term(terms[i], k) implies g[k] == s[nkey(iv, k.0)] && (is_int_var(iv, k.0) ==> g[k] is Int) by { assert(terms_in(terms, k)); }
+        }
+        lemma_p2f_value(terms[i], iv, gts[i], fc, g, s, v);
+    }
+    if tuple_vals(terms, g, vs) {
+        assert forall|i: int| 0 <= i < vs.len() implies vs[i] == ev[i] by { assert(tv_at(terms, g, vs, i)); }
+    }
+    if vs =~= ev {
+        assert forall|i: int| 0 <= i < terms.len() implies #[trigger] tv_at(terms, g, vs, i) by { assert(in_vals(terms[i], g, ev[i]) == (ev[i] == ev[i])); }
+    }
+}
+
+/// C08, literals: [not [not]] p(t1', ..., tk')
+pub proof fn lemma_nat_literal(l: asp::Literal, iv: Seq<String>, gts: Seq<GeneralTerm>, f: Formula, w: World, m: HT, g: Asg, s: Asg)
+    requires
+        p2f_all(l.atom.terms@, iv, gts), is_signed_atom(f, l.sign, l.atom.predicate_symbol@, gts),
+        corr(g, s, iv, |k: VKey| terms_in(l.atom.terms@, k)), ht_wf(m),
+    ensures ht_sat(f, w, m, s) == lit_sat(l, w, m, g),
+{
+    let terms = l.atom.terms@;
+    let p = l.atom.predicate_symbol@;
+    let ev = eval_terms(gts, m.fc, s);
+    lemma_signed_atom(f, l.sign, p, gts, w, m, s);
+    assert forall|vs: Seq<Val>| #[trigger] tuple_vals(terms, g, vs) == (vs =~= ev) by { lemma_p2f_tuple(terms, iv, gts, m.fc, g, s, vs); }
+    if signed_holds(l.sign, w, m, p, ev) { assert(tuple_vals(terms, g, ev)); }
+    if lit_sat(l, w, m, g) {
+        let vs = choose|vs: Seq<Val>| #[trigger] tuple_vals(terms, g, vs) && signed_holds(l.sign, w, m, p, vs);
+        assert(vs =~= ev);
+    }
+}
+
+pub proof fn lemma_nat_literal_fv(l: asp::Literal, iv: Seq<String>, gts: Seq<GeneralTerm>, f: Formula, k: VKey)
+    requires p2f_all(l.atom.terms@, iv, gts), is_signed_atom(f, l.sign, l.atom.predicate_symbol@, gts), fv(f, k),
+    ensures terms_in(l.atom.terms@, (k.0, Sort::General)) && k == nkey(iv, k.0),
+{
+    lemma_signed_atom_fv(f, l.sign, l.atom.predicate_symbol@, gts, k);
+    let i = choose|i: int| 0 <= i < gts.len() && #[trigger] in_gen(gts[i], k);
+    assert(spec_p2f(l.atom.terms@[i], iv) == Some(gts[i]));
+    lemma_p2f_fv(l.atom.terms@[i], iv, gts[i], k);
+}
+
+// ---- comparisons -------------------------------------------------------------------------------------------------------------
+/// a chain with two guards  t0 r1 t1 r2 t2
+pub open spec fn cmp2(t0: GeneralTerm, r1: Relation, t1: GeneralTerm, r2: Relation, t2: GeneralTerm, f: Formula) -> bool {
+    f is AtomicFormula && f->AtomicFormula_0 is Comparison && f->AtomicFormula_0->Comparison_0.term == t0 && f->AtomicFormula_0->Comparison_0.guards@.len() == 2
+        && f->AtomicFormula_0->Comparison_0.guards@[0] == (Guard { relation: r1, term: t1 }) && f->AtomicFormula_0->Comparison_0.guards@[1] == (Guard { relation: r2, term: t2 })
+}
+
+pub proof fn lemma_cmp2(t0: GeneralTerm, r1: Relation, t1: GeneralTerm, r2: Relation, t2: GeneralTerm, f: Formula, w: World, m: HT, s: Asg)
+    requires cmp2(t0, r1, t1, r2, t2, f),
+    ensures ht_sat(f, w, m, s) == (rel_holds(r1, eval_gen(t0, m.fc, s), eval_gen(t1, m.fc, s)) && rel_holds(r2, eval_gen(t1, m.fc, s), eval_gen(t2, m.fc, s))),
+{
+    reveal_with_fuel(sat_guards, 4);
+}
+
+pub proof fn lemma_cmp2_fv(t0: GeneralTerm, r1: Relation, t1: GeneralTerm, r2: Relation, t2: GeneralTerm, f: Formula, k: VKey)
+    requires cmp2(t0, r1, t1, r2, t2, f),
+    ensures fv(f, k) == (in_gen(t0, k) || in_gen(t1, k) || in_gen(t2, k)),
+{
+    let c = f->AtomicFormula_0->Comparison_0;
+    if in_guards(c.guards@, k) {
+        let i = choose|i: int| 0 <= i < c.guards@.len() && #[trigger] in_gen(c.guards@[i].term, k);
+        assert(i == 0 || i == 1);
+    }
+    if in_gen(t1, k) { assert(in_gen(c.guards@[0].term, k)); }
+    if in_gen(t2, k) { assert(in_gen(c.guards@[1].term, k)); }
+}
+
+/// an integer lies between two integers in the total order of values exactly when it does as an integer; nothing else does
+pub proof fn lemma_between(i: int, a: Val, j: int)
+    ensures (rel_holds(Relation::LessEqual, Val::Int(i), a) && rel_holds(Relation::LessEqual, a, Val::Int(j))) == (a is Int && i <= a->Int_0 <= j),
+{
+}
+
+pub open spec fn cmp_in(c: asp::Comparison, k: VKey) -> bool { asp_in_term(c.lhs, k) || asp_in_term(c.rhs, k) }
+
+/// C08, comparisons that are not `t1 = t2..t3`
+pub proof fn lemma_nat_cmp_plain(c: asp::Comparison, iv: Seq<String>, lhs: GeneralTerm, rhs: GeneralTerm, f: Formula, w: World, m: HT, g: Asg, s: Asg)
+    requires
+        spec_p2f(c.lhs, iv) == Some(lhs), spec_p2f(c.rhs, iv) == Some(rhs), arith_closed(c.lhs, iv), arith_closed(c.rhs, iv),
+        cmp1(lhs, rel_of(c.relation), rhs, f), corr(g, s, iv, |k: VKey| cmp_in(c, k)),
+    ensures ht_sat(f, w, m, s) == cmp_sat(c, g),
+{
+    lemma_cmp1(lhs, rel_of(c.relation), rhs, f, w, m, s);
+    let a0 = eval_gen(lhs, m.fc, s);
+    let b0 = eval_gen(rhs, m.fc, s);
+    assert(corr(g, s, iv, |k: VKey| asp_in_term(c.lhs, k))) by {
+        assert forall|k: VKey| #[trigger] asp_in_term(c.lhs, k) implies g[k] == s[nkey(iv, k.0)] && (is_int_var(iv, k.0) ==> g[k] is Int) by { assert(cmp_in(c, k)); }
+    }
+    assert(corr(g, s, iv, |k: VKey| asp_in_term(c.rhs, k))) by {
+        assert forall|k: VKey| #[trigger] asp_in_term(c.rhs, k) implies g[k] == s[nkey(iv, k.0)] && (is_int_var(iv, k.0) ==> g[k] is Int) by { assert(cmp_in(c, k)); }
+    }
+    assert forall|a: Val, b: Val| #[trigger] trv2(a, b) implies in_vals(c.lhs, g, a) == (a == a0) && in_vals(c.rhs, g, b) == (b == b0) by {
+        lemma_p2f_value(c.lhs, iv, lhs, m.fc, g, s, a);
+        lemma_p2f_value(c.rhs, iv, rhs, m.fc, g, s, b);
+    }
+    if rel_holds(rel_of(c.relation), a0, b0) { assert(trv2(a0, b0)); }
+}
+
+/// C08, `t1 = t2..t3`:  t2' <= t1' <= t3'
+pub proof fn lemma_nat_cmp_interval(c: asp::Comparison, iv: Seq<String>, lhs: GeneralTerm, lo: GeneralTerm, hi: GeneralTerm, f: Formula, w: World, m: HT, g: Asg, s: Asg)
+    requires
+        c.relation == asp::Relation::Equal, spec_reg2(c.rhs),
+        spec_p2f(c.lhs, iv) == Some(lhs), arith_closed(c.lhs, iv), arith_closed(c.rhs, iv),
+        spec_p2f(*c.rhs->BinaryOperation_lhs, iv) == Some(lo), spec_p2f(*c.rhs->BinaryOperation_rhs, iv) == Some(hi),
+        cmp2(lo, Relation::LessEqual, lhs, Relation::LessEqual, hi, f), corr(g, s, iv, |k: VKey| cmp_in(c, k)),
+    ensures ht_sat(f, w, m, s) == cmp_sat(c, g),
+{
+    let t2 = *c.rhs->BinaryOperation_lhs;
+    let t3 = *c.rhs->BinaryOperation_rhs;
+    lemma_cmp2(lo, Relation::LessEqual, lhs, Relation::LessEqual, hi, f, w, m, s);
+    let a0 = eval_gen(lhs, m.fc, s);
+    let v2 = eval_gen(lo, m.fc, s);
+    let v3 = eval_gen(hi, m.fc, s);
+    // the bounds are variables of an operation term: integer variables of the rule
+    assert forall|k: VKey| #[trigger] asp_in_term(t2, k) implies is_int_var(iv, k.0) by { assert(asp_in_term(c.rhs, k) == (asp_in_term(t2, k) || asp_in_term(t3, k))); }
+    assert forall|k: VKey| #[trigger] asp_in_term(t3, k) implies is_int_var(iv, k.0) by { assert(asp_in_term(c.rhs, k) == (asp_in_term(t2, k) || asp_in_term(t3, k))); }
+    assert(arith_closed(t2, iv) && arith_closed(t3, iv));
+    assert(corr(g, s, iv, |k: VKey| asp_in_term(c.lhs, k))) by {
+        assert forall|k: VKey| #[trigger] asp_in_term(c.lhs, k) implies g[k] == s[nkey(iv, k.0)] && (is_int_var(iv, k.0) ==> g[k] is Int) by { assert(cmp_in(c, k)); }
+    }
+    assert(corr(g, s, iv, |k: VKey| asp_in_term(t2, k))) by {
+        assert forall|k: VKey| #[trigger] asp_in_term(t2, k) implies g[k] == s[nkey(iv, k.0)] && (is_int_var(iv, k.0) ==> g[k] is Int) by { assert(cmp_in(c, k)); }
+    }
+    assert(corr(g, s, iv, |k: VKey| asp_in_term(t3, k))) by {
+        assert forall|k: VKey| #[trigger] asp_in_term(t3, k) implies g[k] == s[nkey(iv, k.0)] && (is_int_var(iv, k.0) ==> g[k] is Int) by { assert(cmp_in(c, k)); }
+    }
+    assert forall|v: Val| in_vals(c.lhs, g, v) == (v == a0) by { lemma_p2f_value(c.lhs, iv, lhs, m.fc, g, s, v); }
+    assert forall|v: Val| in_vals(t2, g, v) == (v == v2) by { lemma_p2f_value(t2, iv, lo, m.fc, g, s, v); }
+    assert forall|v: Val| in_vals(t3, g, v) == (v == v3) by { lemma_p2f_value(t3, iv, hi, m.fc, g, s, v); }
+    // symbol-free terms regular of the first kind that are integer-closed have integer values
+    lemma_reg1_int(t2, iv, lo, m.fc, g, s);
+    lemma_reg1_int(t3, iv, hi, m.fc, g, s);
+    let i = v2->Int_0;
+    let j = v3->Int_0;
+    lemma_between(i, a0, j);
+    if ht_sat(f, w, m, s) {
+        let k = a0->Int_0;
+        assert(tr3(i, j, k) && in_vals(t2, g, Val::Int(i)) && in_vals(t3, g, Val::Int(j)) && i <= k <= j);
+        assert(in_vals(c.rhs, g, a0));
+        assert(trv2(a0, a0));
+    }
+    if cmp_sat(c, g) {
+        let (a, b) = choose|a: Val, b: Val| #[trigger] trv2(a, b) && in_vals(c.lhs, g, a) && in_vals(c.rhs, g, b) && asp_rel(c.relation, a, b);
+        assert(a == a0 && a == b);
+        let (i2, j2, k2) = choose|i2: int, j2: int, k2: int| #[trigger] tr3(i2, j2, k2) && in_vals(t2, g, Val::Int(i2)) && in_vals(t3, g, Val::Int(j2)) && i2 <= k2 <= j2 && b == Val::Int(k2);
+        assert(Val::Int(i2) == v2 && Val::Int(j2) == v3);
+    }
+}
+
+/// a symbol-free term regular of the first kind whose variables all hold integers has an integer value
+pub proof fn lemma_reg1_int(t: asp::Term, iv: Seq<String>, gt: GeneralTerm, fc: spec_fn(Seq<char>, Sort) -> Val, g: Asg, s: Asg)
+    requires spec_p2f(t, iv) == Some(gt), !spec_sis(t), forall|k: VKey| asp_in_term(t, k) ==> is_int_var(iv, k.0),
+    ensures eval_gen(gt, fc, s) is Int,
+{
+    match t {
+        asp::Term::Variable(x) => { assert(asp_in_term(t, asp_var_key(x))); assert(is_int_var(iv, x.0@)); }
+        _ => {}
+    }
+}
